@@ -75,6 +75,10 @@ def counters_nz(m, key):
     return m["counters"].get(key, [0, 0])[1]
 
 
+def counters_sum(m, key):
+    return m["counters"].get(key, [0, 0])[0]
+
+
 def coverage_from(m, reps, nontrivial_key, rule):
     return {
         "states": m["new_choice_points"], "transitions": m["steps"], "traces_validated_against_impl": m["executions"],
@@ -83,3 +87,123 @@ def coverage_from(m, reps, nontrivial_key, rule):
         "scenarios_run": len(reps), "scenarios": vc.scenario_table(reps)[:10], "counters": m["counters"],
         "distinct_outcomes": m["distinct_outcomes"], "max_choice_points_per_execution": m["max_points"],
     }
+
+
+PROC_WRAPS = {
+    "lp/process.c": ["msg_queue_insert", "msg_queue_extract", "msg_allocator_alloc", "msg_allocator_free",
+                     "model_allocator_checkpoint_restore", "fossil_lp_collect"],
+    "gvt/fossil.c": ["msg_allocator_free=vw_fossil_msg_allocator_free"],
+}
+
+
+def apply_wraps(srcs, core, wraps):
+    for src, obj in zip(srcs, core):
+        syms = wraps.get(src)
+        if not syms:
+            continue
+        nm = subprocess.run(["nm", "-u", obj], capture_output=True, text=True).stdout.split()
+        args = []
+        for s in syms:
+            s, _, target = s.partition("=")
+            if s not in nm:
+                raise vc.EngineError(f"cannot observe {s}: {src} no longer calls it across translation units")
+            args += ["--redefine-sym", f"{s}={target or 'vw_' + s}"]
+        p = subprocess.run(["objcopy"] + args + [obj], capture_output=True, text=True)
+        if p.returncode:
+            raise vc.EngineError("objcopy failed: " + p.stderr)
+
+
+def build_proc(d, san=False, name="h_proc"):
+    """h_proc: the real process.c / msg_queue.c / fossil.c / allocators driven step by step from one scheduler thread (no MPI,
+    no hooks on atomics: there is one thread); the calls the harness observes are redirected in the caller's object."""
+    srcs = [s for s in vc.core_sources() if s not in ("arch/thread.c", "distributed/mpi.c")] + ["distributed/no_mpi.c"]
+    core = vc.build_core(d, files=srcs, san=san, hook=False, extra=["-w"])
+    apply_wraps(srcs, core, PROC_WRAPS)
+    objs = vc.build_objs(d, ["harness/h_proc.c", "engine/rsched.c"] + MODEL_SRC, san=san, extra=["-w", "-I" + os.path.join(vc.VERIF, "harness")])
+    return vc.link(os.path.join(d, name), objs + core, san=san)
+
+
+def pscen(name, model, ck=1, glow=0, deadline=300, j=4, maxexec=None):
+    a = ["--stateful", "-j", str(j), "--deadline", str(deadline), f"m={model}", f"ck={ck}", f"glow={glow}"]
+    if maxexec:
+        a += ["--max-exec", str(maxexec)]
+    return ("px_" + name, a)
+
+
+def _pm(L, I, R, H, M=0, G=0, C=2):
+    from lib import models
+    return models.text(L, I, R, P=5, K=100, M=M, G=G, H=H, C=C)
+
+
+def proc_scenarios(tier, part="all"):
+    """h_proc scenario list.  Quick: models whose complete state space (every delivery order x every legal GVT announcement)
+    is enumerated in seconds.  Thorough: the same with lower GVT values too, plus larger models under a deadline."""
+    A = _pm(2, [1, 2], [2, 1, 7], 3)
+    small = [
+        ("a_ck1", A, 1, 0), ("a_ck2", A, 2, 0), ("a_ck3", A, 3, 0), ("a_ck1_glow", A, 1, 1),
+        ("b3_ck1", _pm(3, [7, 0, 1], [7, 2, 1], 3), 1, 0),
+        ("c_mem_ck1", _pm(2, [1, 2], [2, 1, 7], 3, M=1), 1, 0), ("c_mem_ck2", _pm(2, [1, 2], [2, 1, 7], 3, M=1), 2, 0),
+        ("d_zero_ck1", _pm(2, [3, 1], [2, 3, 1], 3), 1, 0), ("d_zero_ck2", _pm(2, [3, 1], [2, 3, 1], 3), 2, 1),
+        ("e_mem3_ck1", _pm(3, [4, 2, 1], [4, 2, 1], 3, M=2), 1, 0),
+        ("f_rng_auto", _pm(2, [2, 1], [1, 2, 2], 3, G=2), 0, 0), ("f_rng_ck2", _pm(2, [2, 1], [1, 2, 2], 3, G=2), 2, 1),
+    ]
+    sc = [pscen(n, m, ck=ck, glow=gl, deadline=240, j=2) for (n, m, ck, gl) in small]
+    if tier != "quick":
+        big = [
+            ("a_H4_ck1", _pm(2, [1, 2], [2, 1, 7], 4), 1, 0), ("a_H4_ck2", _pm(2, [1, 2], [2, 1, 7], 4), 2, 1),
+            ("b3_H4", _pm(3, [7, 0, 1], [7, 2, 1], 4), 2, 0),
+            ("ties_H3", _pm(2, [5, 1], [1, 5, 2], 3), 2, 0), ("t0twice_H2", _pm(2, [8, 1], [1, 2, 8], 2), 1, 0),
+            ("tiebig_H2", _pm(2, [9, 9], [9, 2, 9], 2), 1, 0), ("c_mem_H4", _pm(2, [1, 2], [2, 1, 7], 4, M=1), 3, 0),
+            ("d_zero_H4", _pm(2, [3, 1], [2, 3, 1], 4), 1, 1), ("chain_H3", _pm(2, [6, 2], [2, 6, 1], 3, C=2), 2, 0),
+        ]
+        sc = [pscen(n, m, ck=ck, glow=1, deadline=600, j=4) for (n, m, ck, gl) in small]
+        sc += [pscen(n, m, ck=ck, glow=gl, deadline=900, j=8) for (n, m, ck, gl) in big]
+    return sc
+
+
+PROC_RULE = ("h_proc part: one scheduler thread drives the real process_msg()/ScheduleNewEvent()/fossil_on_gvt() with every LP treated as a "
+             "worker of its own: every message sent to another LP (and every anti-message re-insertion) is held in flight and the stateful "
+             "search enumerates EVERY order of deliveries and process_msg() calls and every legal GVT announcement (g = minimum over in-flight and "
+             "queued timestamps, optionally minimum-1) up to equality of the complete state (histories with flags, LP states, checkpoint "
+             "positions, in-flight and queued multisets, GVT); oracles after every step: history order, state = forward state of the last "
+             "history entry, released entries < GVT and equal to the sequential per-LP sequence incl. state hashes, message life cycle; at "
+             "quiescence history and end state = sequential execution")
+
+
+def proc_part(pid, d, tier, san=False):
+    """Builds h_proc from /repo's working tree and runs its scenarios; returns (reports, merged, violations)."""
+    b = build_proc(os.path.join(d, "proc"), san=san)
+    reps, m, viol = vc.rsched_scenarios(pid, "h_proc", b, proc_scenarios(tier), d, workers=6 if tier == "quick" else 2)
+    if not viol:
+        for k in ("rollbacks", "rollbacks_after_fossil", "rollbacks_to_kept_checkpoint", "anti_messages_delivered", "commits_checked",
+                  "quiescent_ends", "silent_executions"):
+            if counters_nz(m, k) == 0:
+                raise vc.EngineError(f"vacuous: h_proc never saw '{k}'")
+        if tier == "quick" and not m["exhaustive"]:
+            raise vc.EngineError("h_proc quick scenarios are meant to be enumerated completely; one was cut off: "
+                                 + ", ".join(r["id"] for r in reps if not r.get("exhaustive")))
+    return reps, m, viol
+
+
+def proc_summary(m, reps):
+    return {"executions": m["executions"], "states": m["new_choice_points"], "pruned_revisits": m["pruned"], "exhaustive": m["exhaustive"],
+            "scenarios": vc.scenario_table(reps), "counters": m["counters"]}
+
+
+def is_proc_replay(path):
+    return os.path.basename(path).startswith("px_")
+
+
+PROC_ASSUMPTION = ("h_proc part: local messages only, 2-3 LPs, horizon 2-4 (quick: complete state spaces), allocator layout not part of "
+                   "the state digest")
+
+
+def add_proc(cov, pm, preps):
+    """Fold the h_proc part into a coverage record built from the h_run part."""
+    cov["evaluations"] += pm["executions"]
+    cov["traces_validated_against_impl"] += pm["executions"]
+    cov["states"] += pm["new_choice_points"]
+    cov["transitions"] += counters_sum(pm, "steps")
+    cov["rule"] += ". " + PROC_RULE
+    cov["h_proc"] = proc_summary(pm, preps)
+    cov["exhaustive"] = bool(cov.get("exhaustive")) and pm["exhaustive"]
